@@ -11,7 +11,7 @@ import seqrun
 def run(v, tier, seed, replay):
     lean = C.lean_check(["C18"], tier)
     ok, err = C.cargo_build("fh-core", ["fh-seq"])
-    n = 500 if tier == "quick" else 40000
+    n = 1000 if tier == "quick" else 40000
     r = C.Rng(seed * 1000003 + 18)
     gens = []
     if replay:
